@@ -158,6 +158,16 @@ func init() {
 			}
 			return &cell
 		},
+		rt + "Yield": func(fr *frame, a []value) value {
+			if len(fr.i.sch.gs) > 1 {
+				fr.i.block(&pendOp{what: "yield", cond: func() bool { return true }, fire: func() {}})
+			}
+			return nil
+		},
+		rt + "PreemptionBound": func(fr *frame, a []value) value {
+			fr.i.sch.preemptBound = a[0].(int)
+			return nil
+		},
 		rt + "Quiesce": func(fr *frame, a []value) value {
 			fr.i.block(&pendOp{what: "quiesce", cond: func() bool { return false }, fire: func() {}, quiesce: true})
 			return nil
